@@ -1,6 +1,9 @@
 """Receive-side driver shared by C02-C07 and C17: one connection, a server byte stream delivered
 under a link plan, a fixed client program, recorded observations; plus the model's prediction."""
+import socket as _rs
+
 from . import rfc6455 as R
+from .peers import WSPeer
 from .harness import (S, HOST, STD_RESP_LEN, InvalidScenario, Result, std_world, obs_value, exc_name)
 from .kernel import SimAbort
 
@@ -31,6 +34,21 @@ def link_plan(cfg, timeout_ticks):
     if cfg.get("sizes"):
         link["sizes"] = [max(1, int(x)) for x in cfg["sizes"]]
     return link
+
+
+PRIOR_LOSSES = (
+    {"hex": "820a30313233", "end": "eof"},            # header + 4 of 10 payload bytes, then end of stream
+    {"hex": "0103706172", "end": "eof"},              # a complete non-final text fragment, then end of stream
+    {"hex": "81", "end": "eof"},                      # first header byte only
+    {"hex": "827e01", "end": "reset"},                # inside the extended length, then reset
+    {"hex": "0203e282ac8905", "end": "eof"},          # non-final binary fragment + a ping header announcing 5 bytes
+    {"hex": "0102e282", "end": "reset"},              # non-final text fragment cut inside a code point
+)
+
+
+def gen_prior(rng, p=0.1):
+    """history of the object under test for the receive properties: fresh (None) or re-used after a loss."""
+    return dict(rng.choice(PRIOR_LOSSES)) if rng.random() < p else None
 
 
 def run_recv(seed, stream, cfg, res=None, peer_extra=None, side=None, policy=None, choices=None):
@@ -68,6 +86,17 @@ def run_recv(seed, stream, cfg, res=None, peer_extra=None, side=None, policy=Non
         sock["send_eagain"] = [int(x) for x in cfg["send_eagain"]]
     w, peers = std_world(seed=seed, peer_cfg=peer_cfg, link=link, sock=sock, policy=policy, choices=choices,
                          step_cap=int(cfg.get("step_cap", 400_000)))
+    prior = cfg.get("prior")
+    if prior is not None:
+        # the object under test has been used before: an earlier connection of the same WebSocket object was lost in the
+        # middle of a frame / of a fragmented message (the bytes in prior['hex'], then end of stream or reset)
+        if prior.get("end", "eof") not in ("eof", "reset") or not isinstance(prior.get("hex", ""), str):
+            raise InvalidScenario("prior")
+        bytes.fromhex(prior["hex"])
+        w.net.add_host("prior.sim.test", [(_rs.AF_INET, "10.1.9.9")])
+        w.net.listen("10.1.9.9", 80, lambda conn: WSPeer(w, {"after": prior["hex"], "script": [{"t": 0, "end": prior.get("end", "eof")}],
+                                                             "on_close": {"mode": "never"}, "on_ping": {"mode": "never"},
+                                                             "eof_on_client_eof": False}))
     max_calls = int(cfg.get("max_calls", 64))
     total_k = sum(int(v) for v in dict(cfg.get("gaps", {})).values())
     max_timeouts = int(cfg.get("max_timeouts", total_k + 2))
@@ -82,6 +111,22 @@ def run_recv(seed, stream, cfg, res=None, peer_extra=None, side=None, policy=Non
                          skip_utf8_validation=bool(cfg.get("skip_utf8")))
         if T is not None:
             c.settimeout(T / S)
+        if prior is not None:
+            try:
+                c.connect("ws://prior.sim.test/")
+                for _ in range(12):
+                    c.recv_data_frame(True)
+            except SimAbort:
+                raise
+            except BaseException:  # noqa - that connection is lost; what it delivered is not judged
+                pass
+            try:
+                c.close(timeout=0)
+            except SimAbort:
+                raise
+            except BaseException:  # noqa
+                pass
+            w.probe("reused_object")
         try:
             c.connect(f"ws://{HOST}/")
             ok = True
@@ -160,8 +205,8 @@ def run_recv(seed, stream, cfg, res=None, peer_extra=None, side=None, policy=Non
             "wrote": peer.ws_bytes() if peer else b"",
             "wrote_events": [(f.opcode, f.payload, seq) for f, seq, _ in peer.frames] if peer else [],
             "maxbuf": w.net.max_bufsize, "world": w,
-            "consumed": w.net.sockets[0].consumed if w.net.sockets else 0,
-            "delivered": w.net.conns[0].link.delivered if w.net.conns else 0,
+            "consumed": w.net.sockets[-1].consumed if w.net.sockets else 0,
+            "delivered": w.net.conns[-1].link.delivered if w.net.conns else 0,
             "peer": peer, "connected_ok": ok,
         }
     if res is not None:
